@@ -3,16 +3,25 @@ Names group of py2lean: the name rules of pydsdl (`pydsdl/_serializable/_name.py
 
 What is translated, all of it read from the working tree of $VERIF_REPO with `ast` on every run:
 
-  * the module-level string constants the function refers to (`_VALID_FIRST_CHARACTERS_OF_NAME`, ...): constant expressions over
-    string literals, `string.ascii_letters / ascii_lowercase / ascii_uppercase / digits`, other such constants and `+`, evaluated to
-    the list of their characters;
-  * the table of disallowed names (`_DISALLOWED_NAME_PATTERNS`): a list / tuple / set display (or `+` of displays) whose elements are
-    constant strings or `re.compile(<constant string>)` calls without flags, in the order of the source.  The SOURCE TEXT of every
-    pattern is parsed here, by `parse_regex`, into the regex AST `Py.Rx` of lean/PyRegex.lean (whose matcher is proved correct against
-    the declarative language semantics); a final `$` is recorded as a flag of the table entry (`Py.Pat.re r dollar`);
-  * `check_name` itself, statement by statement, into the exception monad `Py.M` (see `FnTr` for the supported fragment): truthiness
-    of a `str`, `s[i]`, `x in s` / `x not in s`, `for c in s`, `for p in <table>`, `s.lower()`, `isinstance(p, str)`, `p == s`,
-    `p.match(s)` / `p.fullmatch(s)`, `raise E(...)`, `if / elif / else`, `and / or / not`, `len`, integer comparisons, `assert`, `return`.
+  * `check_name` itself, statement by statement, into a TERM of the exception monad `Py.M` with explicit binds (no `do` notation; see
+    `FnTr`).  Supported: truthiness of a `str` / list, `not`, `and` / `or` / `x if c else y` (operands that may raise stay under the
+    condition Python evaluates them under), `s[i]`, `x in s` / `x not in s` (characters in strings, strings in tables),
+    `for c in s`, `for p in <table>`, list comprehensions with conditions (`Py.filterM` when the condition may raise), `any` / `all`
+    over generators, `next((x for x in s if c), None)` with `is None` / `is not None`, search loops (`for x in l: if c: return a`),
+    `s.lower()`, `isinstance(p, str)` / `isinstance(p, re.Pattern)`, `p == s`, `c == "x"`, `p.match(s)` / `p.fullmatch(s)`,
+    `list / tuple / set / frozenset(<table>)`, `len`, integer comparisons, locals (also assigned in branches), `if / elif / else`,
+    early `return`, `assert`, `raise E(<message>)` (the message is not translated, only checked to be harmless to build);
+    module-level helper functions the target calls (found through the call graph, not by name) become local functions of the
+    generated definition;
+  * the module-level constants the code refers to are FOLDED INTO THEIR USE SITES, so their names, their number and how they are
+    derived from each other do not matter: string constants (literals, `string.ascii_letters / ascii_lowercase / ascii_uppercase /
+    digits`, other constants, `+`) - on the right of `in` as the SORTED list of their DISTINCT characters; tables of plain strings and
+    `re.compile(<constant string>)` calls without flags (list / tuple / set displays, `+`, `*x`, `list / tuple / set / frozenset(...)`,
+    comprehensions over another table that select by `isinstance(x, str)` / `not isinstance(x, str)`) in the order of the source;
+    iterating over a set is refused (unspecified order), a module-level name that is rebound or mutated anywhere is not a constant;
+  * the SOURCE TEXT of every pattern is parsed here, by `parse_regex`, into the regex AST `Py.Rx` of lean/PyRegex.lean (whose matcher
+    is proved correct against the declarative language semantics); a final `$` is recorded as a flag of the entry (`Py.Pat.re r dollar`);
+  * `Gen.Names.reserved`: every table entry the function consults, in the order of first use (for `C05.gen_reserved_table`).
 
 Anything outside the supported fragment - in particular every regular-expression feature `parse_regex` does not know (flags,
 counted repetition, lazy / possessive quantifiers, back-references, look-around, `\\w \\s \\b`, anchors inside the pattern, ...) - makes
@@ -256,11 +265,36 @@ def rx_lean(r) -> str:
 STRING_MODULE = {"ascii_letters": string.ascii_letters, "ascii_lowercase": string.ascii_lowercase,
                  "ascii_uppercase": string.ascii_uppercase, "digits": string.digits}
 
+MUTATORS = {"append", "extend", "insert", "remove", "pop", "clear", "sort", "reverse", "add", "discard", "update",
+            "difference_update", "intersection_update", "symmetric_difference_update", "setdefault", "popitem"}
+
+
+class Table:
+    """A module-level collection of plain strings and compiled patterns, evaluated at translation time.
+    entries: ("str", text) | ("re", source text); ordered = False for a set / frozenset (iteration order unspecified)."""
+
+    def __init__(self, entries: typing.List[typing.Tuple[str, str]], ordered: bool):
+        self.entries = entries
+        self.ordered = ordered
+
+    def lean(self, ind: str) -> str:
+        items = []
+        for k, v in self.entries:
+            if k == "str":
+                items.append(".str %s" % lean_chars(v))
+            else:
+                r, dollar = parse_regex(v)
+                items.append(".re %s %s" % (rx_lean(r), "true" if dollar else "false"))
+        if not items:
+            return "([] : List Py.Pat)"
+        return "([\n%s  %s] : List Py.Pat)" % (ind, (",\n%s  " % ind).join(items))
+
 
 class Module:
     def __init__(self, tree: ast.Module):
         self.tree = tree
         self.consts: typing.Dict[str, ast.AST] = {}
+        self.funcs: typing.Dict[str, ast.FunctionDef] = {}
         self.imports: typing.Set[str] = set()
         counts: typing.Dict[str, int] = {}
         for n in tree.body:
@@ -276,18 +310,27 @@ class Module:
             if tgt is not None:
                 counts[tgt] = counts.get(tgt, 0) + 1
                 self.consts[tgt] = val
-        # anything that (re)binds a module-level name elsewhere makes it not a constant
+            if isinstance(n, ast.FunctionDef):
+                counts[n.name] = counts.get(n.name, 0) + 1
+                self.funcs[n.name] = n
+        # anything that (re)binds or mutates a module-level name elsewhere makes it not a constant
         rebound: typing.Set[str] = {k for k, v in counts.items() if v > 1}
         for n in ast.walk(tree):
             if isinstance(n, ast.Global):
                 rebound |= set(n.names)
-            if isinstance(n, (ast.AugAssign,)) and isinstance(n.target, ast.Name) and n in tree.body:
+            if isinstance(n, ast.AugAssign) and isinstance(n.target, ast.Name) and n in tree.body:
                 rebound.add(n.target.id)
+            if isinstance(n, ast.Call) and isinstance(n.func, ast.Attribute) and isinstance(n.func.value, ast.Name) \
+                    and n.func.attr in MUTATORS:
+                rebound.add(n.func.value.id)
+            if isinstance(n, (ast.Subscript, ast.Attribute)) and isinstance(n.ctx, (ast.Store, ast.Del)) and isinstance(n.value, ast.Name):
+                rebound.add(n.value.id)
         for n in tree.body:
-            if isinstance(n, (ast.FunctionDef, ast.ClassDef)) and n.name in self.consts:
+            if isinstance(n, ast.ClassDef) and (n.name in self.consts or n.name in self.funcs):
                 rebound.add(n.name)
         for k in rebound:
             self.consts.pop(k, None)
+            self.funcs.pop(k, None)
         if any(k in counts or k in rebound for k in ("re", "string")):
             self.imports -= {"re", "string"}
 
@@ -310,67 +353,149 @@ class Module:
         except Untranslatable:
             return False
 
-    def table(self, n: ast.AST, seen: typing.Tuple[str, ...] = ()) -> typing.List[str]:
-        """The elements of a table of strings and compiled patterns, as Lean terms of type `Py.Pat`."""
+    def table(self, n: ast.AST, seen: typing.Tuple[str, ...] = ()) -> Table:
+        """A constant collection of strings and compiled patterns: displays, `+`, `*x`, `list / tuple / set / frozenset(<collection>)`,
+        and comprehensions over such a collection that select by `isinstance(x, str)` / `not isinstance(x, str)`."""
         if isinstance(n, (ast.List, ast.Tuple, ast.Set)):
-            out = []
+            out: typing.List[typing.Tuple[str, str]] = []
             for e in n.elts:
                 if isinstance(e, ast.Starred):
-                    out += self.table(e.value, seen)
+                    sub = self.table(e.value, seen)
+                    if not sub.ordered and not isinstance(n, ast.Set):
+                        raise Untranslatable("iteration order of a set: %s" % ast.unparse(e))
+                    out += sub.entries
                 elif self.is_str(e):
-                    out.append(".str %s" % lean_chars(self.const_str(e)))
+                    out.append(("str", self.const_str(e)))
                 elif (isinstance(e, ast.Call) and isinstance(e.func, ast.Attribute) and e.func.attr == "compile"
                       and isinstance(e.func.value, ast.Name) and e.func.value.id == "re" and "re" in self.imports):
                     if len(e.args) != 1 or e.keywords:
                         raise Untranslatable("re.compile with flags: %s" % ast.unparse(e))
                     src = self.const_str(e.args[0])
-                    r, dollar = parse_regex(src)
-                    out.append(".re %s %s" % (rx_lean(r), "true" if dollar else "false"))
+                    parse_regex(src)  # refuse unsupported syntax here
+                    out.append(("re", src))
                 else:
                     raise Untranslatable("table element %s" % ast.unparse(e))
-            return out
+            return Table(out, not isinstance(n, ast.Set))
         if isinstance(n, ast.BinOp) and isinstance(n.op, ast.Add):
-            return self.table(n.left, seen) + self.table(n.right, seen)
+            a, b = self.table(n.left, seen), self.table(n.right, seen)
+            if not (a.ordered and b.ordered):
+                raise Untranslatable("`+` of sets")
+            return Table(a.entries + b.entries, True)
         if isinstance(n, ast.Name) and n.id in self.consts and n.id not in seen:
             return self.table(self.consts[n.id], seen + (n.id,))
+        if isinstance(n, ast.Call) and isinstance(n.func, ast.Name) and n.func.id in ("list", "tuple", "set", "frozenset") \
+                and not n.keywords and len(n.args) <= 1 and n.func.id not in self.consts and n.func.id not in self.funcs:
+            to_set = n.func.id in ("set", "frozenset")
+            if not n.args:
+                return Table([], not to_set)
+            sub = self.table(n.args[0], seen)
+            if not sub.ordered and not to_set:
+                raise Untranslatable("iteration order of a set: %s" % ast.unparse(n))
+            return Table(sub.entries, not to_set)
+        if isinstance(n, (ast.ListComp, ast.SetComp, ast.GeneratorExp)):
+            if len(n.generators) != 1 or n.generators[0].is_async or not isinstance(n.generators[0].target, ast.Name):
+                raise Untranslatable("comprehension %s" % ast.unparse(n)[:80])
+            g = n.generators[0]
+            v = g.target.id
+            if not (isinstance(n.elt, ast.Name) and n.elt.id == v):
+                raise Untranslatable("comprehension that transforms its elements: %s" % ast.unparse(n)[:80])
+            sub = self.table(g.iter, seen)
+            entries = sub.entries
+            for c in g.ifs:
+                neg = False
+                while isinstance(c, ast.UnaryOp) and isinstance(c.op, ast.Not):
+                    neg, c = not neg, c.operand
+                if not (isinstance(c, ast.Call) and isinstance(c.func, ast.Name) and c.func.id == "isinstance" and len(c.args) == 2
+                        and not c.keywords and isinstance(c.args[0], ast.Name) and c.args[0].id == v
+                        and isinstance(c.args[1], ast.Name) and c.args[1].id == "str" and "isinstance" not in self.consts
+                        and "str" not in self.consts):
+                    raise Untranslatable("comprehension condition %s" % ast.unparse(c))
+                entries = [x for x in entries if (x[0] == "str") != neg]
+            # a generator / list comprehension keeps the order of its source; a set comprehension has none
+            return Table(entries, sub.ordered and not isinstance(n, ast.SetComp))
         raise Untranslatable("not a table of names and patterns: %s" % ast.unparse(n)[:80])
+
+    def kind(self, name: str) -> str:
+        node = self.consts[name]
+        if self.is_str(node):
+            return "str"
+        self.table(node)
+        return "table"
 
 
 # ----------------------------------------------------------------------------------------------- the function
 
-# types of the fragment: "str", "char", "pat", "table", "bool", "int"
+# Types of the fragment: "str", "char", "chars" (a list of characters), "pat", "table" (a list of strings / patterns), "set" (an
+# unordered table: membership only), "bool", "int", "optchar" / "optpat" (`next(..., None)`), "none" (a helper without result).
+
+ELEM = {"str": "char", "chars": "char", "table": "pat"}
+LEAN_TY = {"str": "Py.Str", "char": "Char", "chars": "List Char", "pat": "Py.Pat", "table": "List Py.Pat", "set": "List Py.Pat",
+           "bool": "Bool", "int": "Nat", "optchar": "Option Char", "optpat": "Option Py.Pat", "none": "Unit"}
 
 
 class FnTr:
-    """Statement-by-statement translation into a `do` block of `Py.M Unit`.  Expressions are pure Lean terms; a sub-expression that
-    may raise (`s[i]`, `s.lower()`, `p.match(s)`) is hoisted into a monadic `let t ← …` directly in front of its statement, which is
-    sound because the fragment has no other effects; it is refused under `and` / `or` / conditional expressions (short circuit)."""
+    """Translation of a function into a TERM of `Py.M`, with explicit binds (`m >>= fun x => …`) - no `do` notation, so that the
+    elaborator introduces no join points and the bridge can compute the weakest precondition by plain rewriting.
 
-    def __init__(self, mod: Module, used: typing.Dict[str, typing.Tuple[str, str]]):
+    Expressions are pure Lean terms; a sub-expression that may raise (`s[i]`, `s.lower()`, `p.match(s)`, a helper call) is hoisted into
+    a bind directly in front of its statement, which is exact because the fragment has no other effects.  Where Python evaluates an
+    operand only conditionally (`and`, `or`, `x if c else y`, the condition of a comprehension, `any` / `all`) the operand's binds stay
+    inside a monadic sub-term that is only run under the same condition (`if a then <b> else pure false`, `Py.filterM`, `Py.anyM`).
+
+    Module constants are folded into the use site: a string on the right of `in` as the SORTED list of its distinct characters
+    (membership does not depend on order or repetition), a table as the list of its entries in the order of the source.
+    Message arguments of `raise` are not translated; they are checked to consist of constants, names, `%` / `+`, tuples, `x[0]`,
+    `x.pattern`, `str / repr / len`, so that building the message cannot itself raise something else on the paths it is reached on.
+    Helper functions of the module (called by name) become local functions of the generated definition."""
+
+    def __init__(self, mod: Module, outer: typing.Optional["FnTr"] = None):
         self.mod = mod
-        self.used = used  # module constant -> (kind, lean definition text)
+        self.root: "FnTr" = outer.root if outer else self
         self.types: typing.Dict[str, str] = {}
-        self.pre: typing.List[str] = []
-        self.tmp = 0
+        self.pre: typing.List[typing.Tuple[str, str]] = []
         self.loop = 0
+        self.ret: typing.Optional[str] = None  # result type of the function being translated (None = not yet known)
+        if outer is None:
+            self.tmp = 0
+            self.helpers: typing.Dict[str, typing.Tuple[str, typing.List[str], str]] = {}  # name -> (lean name, arg types, ret type)
+            self.helper_defs: typing.List[str] = []
+            self.in_progress: typing.List[str] = []
+            self.tables_used: typing.List[typing.Tuple[str, str]] = []
+
+    # --- helpers
+    def fresh(self) -> str:
+        self.root.tmp += 1
+        return "t%d" % self.root.tmp
 
     def bind(self, m: str) -> str:
-        self.tmp += 1
-        v = "t%d" % self.tmp
-        self.pre.append("let %s ← %s" % (v, m))
+        v = self.fresh()
+        self.pre.append((v, m))
         return v
 
-    def const(self, name: str) -> typing.Tuple[str, str]:
-        """A module-level constant: (type, lean name)."""
-        ln = "Gen.Names." + lname(name)
-        if name not in self.used:
-            node = self.mod.consts[name]
-            if self.mod.is_str(node):
-                self.used[name] = ("str", "def %s : Py.Str :=\n  %s" % (ln, lean_chars(self.mod.const_str(node))))
-            else:
-                elems = self.mod.table(node)
-                self.used[name] = ("table", "def %s : List Py.Pat := [\n  %s]" % (ln, ",\n  ".join(elems)))
-        return self.used[name][0], ln
+    @staticmethod
+    def local(name: str) -> str:
+        return "v_" + name
+
+    def isolated(self, fn):
+        saved, self.pre = self.pre, []
+        try:
+            r = fn()
+            p = self.pre
+        finally:
+            self.pre = saved
+        return p, r
+
+    @staticmethod
+    def mterm(pre: typing.List[typing.Tuple[str, str]], body: str) -> str:
+        return "(" + "".join("%s >>= fun %s => " % (m, v) for v, m in pre) + body + ")"
+
+    def use_table(self, t: Table) -> None:
+        for e in t.entries:
+            if e not in self.root.tables_used:
+                self.root.tables_used.append(e)
+
+    def shadowed(self, name: str) -> bool:
+        return name in self.types or name in self.mod.consts or name in self.mod.funcs
 
     # --- expressions: returns (type, lean term)
     def e(self, n: ast.AST) -> typing.Tuple[str, str]:
@@ -384,13 +509,17 @@ class FnTr:
             raise Untranslatable("constant %r" % (n.value,))
         if isinstance(n, ast.Name):
             if n.id in self.types:
-                return self.types[n.id], lname(n.id)
+                return self.types[n.id], self.local(n.id)
             if n.id in self.mod.consts:
-                return self.const(n.id)
+                if self.mod.kind(n.id) == "str":
+                    return "str", "(%s : Py.Str)" % lean_chars(self.mod.const_str(self.mod.consts[n.id]))
+                t = self.mod.table(self.mod.consts[n.id])
+                self.use_table(t)
+                return ("table" if t.ordered else "set"), t.lean("    ")
             raise Untranslatable("name %s" % n.id)
         if isinstance(n, ast.UnaryOp) and isinstance(n.op, ast.Not):
             t, v = self.e(n.operand)
-            if t == "str":
+            if t in ("str", "chars", "table", "set"):
                 return "bool", "(%s).isEmpty" % v
             if t == "int":
                 return "bool", "(%s == 0)" % v
@@ -398,19 +527,27 @@ class FnTr:
                 return "bool", "(!%s)" % v
             raise Untranslatable("truth value of a %s" % t)
         if isinstance(n, ast.BoolOp):
-            before = len(self.pre)
-            vals = [self.truth(v) for v in n.values]
-            if len(self.pre) != before:
-                raise Untranslatable("short-circuit operator with raising operands")
-            return "bool", "(" + (" && " if isinstance(n.op, ast.And) else " || ").join(vals) + ")"
+            return "bool", self.boolop(n)
+        if isinstance(n, ast.IfExp):
+            c = self.truth(n.test)
+            (pa, (ta, va)), (pb, (tb, vb)) = self.isolated(lambda: self.e(n.body)), self.isolated(lambda: self.e(n.orelse))
+            if ta != tb:
+                raise Untranslatable("conditional expression of a %s and a %s" % (ta, tb))
+            if not pa and not pb:
+                return ta, "(if %s then %s else %s)" % (c, va, vb)
+            return ta, self.bind("(if %s then %s else %s)" % (c, self.mterm(pa, "pure " + va), self.mterm(pb, "pure " + vb)))
         if isinstance(n, ast.Compare) and len(n.ops) == 1:
             return "bool", self.compare(n.left, n.ops[0], n.comparators[0])
         if isinstance(n, ast.Subscript):
             t, v = self.e(n.value)
-            if t == "str" and isinstance(n.slice, ast.Constant) and isinstance(n.slice.value, int) and not isinstance(n.slice.value, bool) \
-                    and n.slice.value >= 0:
-                return "char", self.bind("Py.strIndex %s %d" % (v, n.slice.value))
+            if t in ("str", "chars", "table") and isinstance(n.slice, ast.Constant) and isinstance(n.slice.value, int) \
+                    and not isinstance(n.slice.value, bool) and n.slice.value >= 0:
+                fn = "Py.strIndex" if t != "table" else "Py.index"
+                return ELEM[t], self.bind("%s %s %d" % (fn, v, n.slice.value))
             raise Untranslatable("subscript %s" % ast.unparse(n))
+        if isinstance(n, (ast.ListComp, ast.GeneratorExp)):
+            # (a generator expression is only reached as the sole argument of list / tuple / set / frozenset, which consume it entirely)
+            return self.comprehension(n)
         if isinstance(n, ast.Call):
             return self.call(n)
         raise Untranslatable("expression %s" % type(n).__name__)
@@ -419,24 +556,71 @@ class FnTr:
         t, v = self.e(n)
         if t == "bool":
             return v
-        if t == "str":
+        if t in ("str", "chars", "table", "set"):
             return "(!(%s).isEmpty)" % v
         if t == "int":
             return "(%s != 0)" % v
+        if t in ("optchar", "optpat"):
+            raise Untranslatable("truth value of an optional (the element itself may be falsy)")
         raise Untranslatable("truth value of a %s" % t)
 
+    def boolop(self, n: ast.BoolOp) -> str:
+        parts = [self.isolated(lambda v=v: self.truth(v)) for v in n.values]
+        is_and = isinstance(n.op, ast.And)
+        if all(not p for p, _ in parts):
+            return "(" + (" && " if is_and else " || ").join(t for _, t in parts) + ")"
+        # the first operand is always evaluated; every later one only when the ones before it did not decide
+        acc: typing.Optional[str] = None
+        for p, t in reversed(parts[1:]):
+            if acc is None:
+                cur = "pure %s" % t
+            elif is_and:
+                cur = "(if %s then %s else pure false)" % (t, acc)
+            else:
+                cur = "(if %s then pure true else %s)" % (t, acc)
+            acc = self.mterm(p, cur)
+        p0, t0 = parts[0]
+        self.pre += p0
+        assert acc is not None
+        return self.bind("(if %s then %s else pure false)" % (t0, acc) if is_and else "(if %s then pure true else %s)" % (t0, acc))
+
     def compare(self, l: ast.AST, op: ast.cmpop, r: ast.AST) -> str:
+        if isinstance(op, (ast.Is, ast.IsNot)):
+            if isinstance(l, ast.Constant) and l.value is None:
+                l, r = r, l
+            if isinstance(r, ast.Constant) and r.value is None:
+                lt, lv = self.e(l)
+                if lt in ("optchar", "optpat"):
+                    return "(%s).isNone" % lv if isinstance(op, ast.Is) else "(%s).isSome" % lv
+                if lt in ("str", "char", "chars", "pat", "table", "set", "bool", "int"):
+                    return "false" if isinstance(op, ast.Is) else "true"
+            raise Untranslatable("`is` other than a comparison with None")
         lt, lv = self.e(l)
+        if isinstance(op, (ast.In, ast.NotIn)) and lt == "char" and isinstance(r, ast.Name) and r.id not in self.types \
+                and r.id in self.mod.consts and self.mod.kind(r.id) == "str":
+            # membership in a constant string: canonical form of the character set
+            chars = "".join(sorted(set(self.mod.const_str(self.mod.consts[r.id]))))
+            c = "(Py.charIn %s %s)" % (lv, lean_chars(chars))
+            return c if isinstance(op, ast.In) else "(!%s)" % c
         rt, rv = self.e(r)
         if isinstance(op, (ast.In, ast.NotIn)):
-            if lt == "char" and rt == "str":
+            if lt == "char" and rt in ("str", "chars"):
                 c = "(Py.charIn %s %s)" % (lv, rv)
-                return c if isinstance(op, ast.In) else "(!%s)" % c
-            raise Untranslatable("`in` between %s and %s" % (lt, rt))
+            elif lt == "str" and rt in ("table", "set"):
+                c = "(Py.strInTable %s %s)" % (lv, rv)
+            else:
+                raise Untranslatable("`in` between %s and %s" % (lt, rt))
+            return c if isinstance(op, ast.In) else "(!%s)" % c
         if isinstance(op, (ast.Eq, ast.NotEq)):
-            if {lt, rt} == {"pat", "str"}:
+            if {lt, rt} == {"char", "str"}:
+                # a character is a string of length one: equality with a constant string
+                cn, cv = (r, lv) if lt == "char" else (l, rv)
+                if not (isinstance(cn, ast.Constant) and isinstance(cn.value, str)):
+                    raise Untranslatable("`==` between a character and a non-constant string")
+                c = "(%s == %s)" % (cv, lean_char(cn.value)) if len(cn.value) == 1 else "false"
+            elif {lt, rt} == {"pat", "str"}:
                 c = "(Py.Pat.eqStr %s %s)" % ((lv, rv) if lt == "pat" else (rv, lv))
-            elif lt == rt and lt in ("str", "int", "bool"):
+            elif lt == rt and lt in ("str", "int", "bool", "char"):
                 c = "(%s == %s)" % (lv, rv)
             else:
                 raise Untranslatable("`==` between %s and %s" % (lt, rt))
@@ -446,22 +630,113 @@ class FnTr:
             return "(decide (%s %s %s))" % (lv, sym, rv)
         raise Untranslatable("comparison %s between %s and %s" % (type(op).__name__, lt, rt))
 
+    def generator(self, n) -> typing.Tuple[str, str, str, typing.List[ast.expr]]:
+        """(type of the iterable, its term, loop variable, conditions) of a comprehension with one `for`."""
+        if len(n.generators) != 1 or n.generators[0].is_async or not isinstance(n.generators[0].target, ast.Name):
+            raise Untranslatable("comprehension %s" % ast.unparse(n)[:80])
+        g = n.generators[0]
+        t, it = self.e(g.iter)
+        if t not in ELEM:
+            raise Untranslatable("comprehension over a %s" % t)
+        if self.shadowed(g.target.id):
+            raise Untranslatable("comprehension variable %s hides another name" % g.target.id)
+        return t, it, g.target.id, g.ifs
+
+    def under(self, var: str, ty: str, fn):
+        """Translate with the comprehension / loop variable in scope; returns (binds needed inside, result)."""
+        self.types[var] = ty
+        try:
+            return self.isolated(fn)
+        finally:
+            del self.types[var]
+
+    def conj(self, conds: typing.List[ast.expr]) -> str:
+        ts = [self.truth(c) for c in conds]
+        return "(" + " && ".join(ts) + ")" if len(ts) > 1 else ts[0]
+
+    def filtered(self, t: str, it: str, var: str, ifs: typing.List[ast.expr]) -> typing.Tuple[str, str]:
+        """The elements of `it` that pass `ifs`, in order (a list)."""
+        rt = "chars" if ELEM[t] == "char" else "table"
+        if not ifs:
+            return rt, it
+        if len(ifs) > 1:
+            n = ast.BoolOp(op=ast.And(), values=list(ifs))
+            p, c = self.under(var, ELEM[t], lambda: self.truth(n))
+        else:
+            p, c = self.under(var, ELEM[t], lambda: self.truth(ifs[0]))
+        if not p:
+            return rt, "((%s).filter (fun %s => %s))" % (it, self.local(var), c)
+        return rt, self.bind("Py.filterM %s (fun %s => %s)" % (it, self.local(var), self.mterm(p, "pure " + c)))
+
+    def comprehension(self, n) -> typing.Tuple[str, str]:
+        t, it, var, ifs = self.generator(n)
+        if not (isinstance(n.elt, ast.Name) and n.elt.id == var):
+            raise Untranslatable("comprehension that transforms its elements: %s" % ast.unparse(n)[:80])
+        return self.filtered(t, it, var, ifs)
+
     def call(self, n: ast.Call) -> typing.Tuple[str, str]:
         f = n.func
         if n.keywords:
             raise Untranslatable("keyword arguments")
-        if isinstance(f, ast.Name) and f.id == "isinstance" and len(n.args) == 2 and isinstance(n.args[1], ast.Name) and n.args[1].id == "str":
-            t, v = self.e(n.args[0])
-            if t == "pat":
-                return "bool", "(%s).isStr" % v
-            if t == "str":
-                return "bool", "true"
-            raise Untranslatable("isinstance of a %s" % t)
-        if isinstance(f, ast.Name) and f.id == "len" and len(n.args) == 1:
-            t, v = self.e(n.args[0])
-            if t in ("str", "table"):
-                return "int", "(%s).length" % v
-            raise Untranslatable("len of a %s" % t)
+        if isinstance(f, ast.Name) and f.id in self.mod.funcs and f.id not in self.types:
+            return self.helper_call(f.id, n.args)
+        if isinstance(f, ast.Name) and not self.shadowed(f.id):
+            if f.id == "isinstance" and len(n.args) == 2:
+                cls = n.args[1]
+                t, v = self.e(n.args[0])
+                if isinstance(cls, ast.Name) and cls.id == "str" and not self.shadowed("str"):
+                    if t == "pat":
+                        return "bool", "(%s).isStr" % v
+                    if t in ("str", "char"):
+                        return "bool", "true"
+                    if t in ("chars", "table", "set", "bool", "int"):
+                        return "bool", "false"
+                if isinstance(cls, ast.Attribute) and isinstance(cls.value, ast.Name) and cls.value.id == "re" and cls.attr == "Pattern" \
+                        and "re" in self.mod.imports and not self.shadowed("re"):
+                    if t == "pat":
+                        return "bool", "(!(%s).isStr)" % v
+                    if t in ("str", "char", "chars", "table", "set", "bool", "int"):
+                        return "bool", "false"
+                raise Untranslatable("isinstance(%s, %s)" % (t, ast.unparse(cls)))
+            if f.id == "len" and len(n.args) == 1:
+                t, v = self.e(n.args[0])
+                if t in ("str", "chars", "table"):
+                    return "int", "(%s).length" % v
+                raise Untranslatable("len of a %s" % t)
+            if f.id in ("list", "tuple", "set", "frozenset") and len(n.args) == 1:
+                t, v = self.e(n.args[0])
+                to_set = f.id in ("set", "frozenset")
+                if t in ("table", "set") and (to_set or t == "table"):
+                    return ("set" if to_set else "table"), v
+                if t in ("str", "chars") and not to_set:
+                    return "chars", v
+                raise Untranslatable("%s of a %s" % (f.id, t))
+            if f.id == "bool" and len(n.args) == 1:
+                return "bool", self.truth(n.args[0])
+            if f.id in ("any", "all") and len(n.args) == 1 and isinstance(n.args[0], (ast.GeneratorExp, ast.ListComp)):
+                g = n.args[0]
+                t, it, var, ifs = self.generator(g)
+                _, it = self.filtered(t, it, var, ifs)
+                p, c = self.under(var, ELEM[t], lambda: self.truth(g.elt))
+                if not p:
+                    return "bool", "((%s).%s (fun %s => %s))" % (it, f.id, self.local(var), c)
+                if isinstance(g, ast.ListComp):
+                    raise Untranslatable("%s over a list comprehension with raising elements" % f.id)
+                # a generator is consumed lazily: `any` stops at the first true element, `all` at the first false one
+                return "bool", self.bind("Py.%sM %s (fun %s => %s)" % (f.id, it, self.local(var), self.mterm(p, "pure " + c)))
+            if f.id == "next" and len(n.args) == 2 and isinstance(n.args[0], ast.GeneratorExp) \
+                    and isinstance(n.args[1], ast.Constant) and n.args[1].value is None:
+                g = n.args[0]
+                t, it, var, ifs = self.generator(g)
+                if not (isinstance(g.elt, ast.Name) and g.elt.id == var):
+                    raise Untranslatable("next over a generator that transforms its elements")
+                rt = "optchar" if ELEM[t] == "char" else "optpat"
+                if not ifs:
+                    return rt, "(%s).head?" % it
+                p, c = self.under(var, ELEM[t], lambda: self.conj(ifs) if len(ifs) == 1 else self.truth(ast.BoolOp(op=ast.And(), values=list(ifs))))
+                if p:
+                    raise Untranslatable("next over a generator with raising conditions")
+                return rt, "((%s).find? (fun %s => %s))" % (it, self.local(var), c)
         if isinstance(f, ast.Attribute):
             t, v = self.e(f.value)
             if t == "str" and f.attr == "lower" and not n.args:
@@ -474,75 +749,205 @@ class FnTr:
                 return "bool", self.bind("Py.Pat.%s %s %s" % (f.attr, v, av))
         raise Untranslatable("call %s" % ast.unparse(f))
 
-    # --- statements
-    def flush(self, out: typing.List[str], ind: str) -> None:
-        out.extend(ind + p for p in self.pre)
-        self.pre = []
+    # --- helper functions of the module, found through the call graph
+    def helper_call(self, name: str, args: typing.List[ast.expr]) -> typing.Tuple[str, str]:
+        root = self.root
+        targs = [self.e(a) for a in args]
+        atys = [t for t, _ in targs]
+        if any(t in ("table", "set") for t in atys):
+            raise Untranslatable("table passed to a helper")
+        if name in root.in_progress:
+            raise Untranslatable("recursive helper %s" % name)
+        if name not in root.helpers:
+            fn = self.mod.funcs[name]
+            a = fn.args
+            if a.vararg or a.kwarg or a.kwonlyargs or a.posonlyargs or a.defaults or fn.decorator_list or len(a.args) != len(args):
+                raise Untranslatable("signature of helper %s" % name)
+            if any(isinstance(x, (ast.Yield, ast.YieldFrom, ast.Await, ast.Global, ast.Nonlocal, ast.FunctionDef, ast.Lambda)) for x in ast.walk(fn) if x is not fn):
+                raise Untranslatable("helper %s is not a plain function" % name)
+            sub = FnTr(self.mod, self)
+            for p, t in zip(a.args, atys):
+                sub.types[p.arg] = t
+            root.in_progress.append(name)
+            try:
+                body = sub.seq(list(fn.body), 0, "      ", True)
+            finally:
+                root.in_progress.pop()
+            ret = sub.ret or "none"
+            ln = "h_" + name.lstrip("_")
+            params = " ".join("(%s : %s)" % (self.local(p.arg), LEAN_TY[t]) for p, t in zip(a.args, atys))
+            lam = "fun %s => " % params if params else ""
+            ty = " → ".join([LEAN_TY[t] for t in atys] + ["Py.M %s" % LEAN_TY[ret]])
+            root.helper_defs.append("  let %s : %s := %s\n      %s;" % (ln, ty, lam, body))
+            root.helpers[name] = (ln, atys, ret)
+        ln, want, ret = root.helpers[name]
+        if want != atys:
+            raise Untranslatable("helper %s called with %s and with %s" % (name, want, atys))
+        call = " ".join([ln] + ["(%s)" % v for _, v in targs]) if targs else ln
+        v = self.bind(call)
+        return ret, v
 
-    def stmts(self, body: typing.List[ast.stmt], ind: str, out: typing.List[str], top: bool) -> None:
-        emitted = False
-        for s in body:
-            if isinstance(s, ast.Expr) and isinstance(s.value, ast.Constant):
-                continue  # docstring
-            if isinstance(s, ast.Pass):
+    # --- statements: the term (of type `Py.M <ret>`) for stmts[i:]
+    MSG_CALLS = {"str", "repr", "len"}
+
+    def check_message(self, n: typing.Optional[ast.AST]) -> None:
+        if n is None:
+            return
+        for x in ast.walk(n):
+            if isinstance(x, (ast.Constant, ast.Name, ast.Tuple, ast.Load, ast.Mod, ast.Add, ast.JoinedStr, ast.FormattedValue)):
                 continue
-            emitted = True
-            if isinstance(s, ast.Raise):
-                exc = s.exc.func if isinstance(s.exc, ast.Call) else s.exc
-                if not isinstance(exc, ast.Name) or s.cause is not None:
-                    raise Untranslatable("raise %s" % (ast.unparse(s.exc) if s.exc else ""))
-                out.append("%sthrow (.other %s)" % (ind, lean_str(exc.id)))
-            elif isinstance(s, ast.If):
-                c = self.truth(s.test)
-                self.flush(out, ind)
-                out.append("%sif %s then" % (ind, c))
-                self.stmts(s.body, ind + "  ", out, False)
-                if s.orelse:
-                    out.append("%selse" % ind)
-                    self.stmts(s.orelse, ind + "  ", out, False)
-            elif isinstance(s, ast.For) and isinstance(s.target, ast.Name) and not s.orelse:
-                t, it = self.e(s.iter)
-                self.flush(out, ind)
-                et = {"str": "char", "table": "pat"}.get(t)
-                if et is None:
-                    raise Untranslatable("for loop over a %s" % t)
-                if any(isinstance(x, (ast.Assign, ast.AugAssign, ast.AnnAssign, ast.Return, ast.Break, ast.Continue, ast.NamedExpr))
-                       for b in s.body for x in ast.walk(b)):
-                    raise Untranslatable("assignment / return / break / continue inside a for loop")
+            if isinstance(x, ast.BinOp) and isinstance(x.op, (ast.Mod, ast.Add)):
+                continue
+            if isinstance(x, ast.Attribute) and x.attr == "pattern":
+                continue
+            if isinstance(x, ast.Subscript) and isinstance(x.slice, ast.Constant) and x.slice.value == 0:
+                continue
+            if isinstance(x, ast.Call) and isinstance(x.func, ast.Name) and x.func.id in self.MSG_CALLS and not x.keywords \
+                    and not self.shadowed(x.func.id):
+                continue
+            raise Untranslatable("message argument %s" % ast.unparse(n)[:80])
+
+    def finish(self, ty: str, value: str) -> str:
+        if self.ret is None:
+            self.ret = ty
+        elif self.ret != ty:
+            raise Untranslatable("returns a %s and a %s" % (self.ret, ty))
+        return "pure %s" % value
+
+    def seq(self, stmts: typing.List[ast.stmt], i: int, ind: str, tail: bool) -> str:
+        """`tail`: nothing follows these statements in the enclosing function (falling off the end is `return None`)."""
+        while i < len(stmts) and (isinstance(stmts[i], ast.Pass) or (isinstance(stmts[i], ast.Expr) and isinstance(stmts[i].value, ast.Constant))):
+            i += 1
+        if i == len(stmts):
+            return self.finish("none", "()") if tail else "pure ()"
+        s = stmts[i]
+
+        def rest() -> str:
+            return self.seq(stmts, i + 1, ind, tail)
+
+        def then(term: str) -> str:
+            """`term` (of type M Unit) followed by the remaining statements."""
+            j = i + 1
+            while j < len(stmts) and (isinstance(stmts[j], ast.Pass) or (isinstance(stmts[j], ast.Expr) and isinstance(stmts[j].value, ast.Constant))):
+                j += 1
+            if j == len(stmts) and not (tail and self.ret not in (None, "none")):
+                if tail:
+                    self.finish("none", "()")
+                return term
+            return "%s >>= fun _ =>\n%s%s" % (term, ind, rest())
+
+        def take() -> str:
+            """The binds the expressions of this statement need, as a prefix of its term (taken before anything that follows the
+            statement is translated)."""
+            p, self.pre = self.pre, []
+            return "".join("%s >>= fun %s =>\n%s" % (m, v, ind) for v, m in p)
+
+        if isinstance(s, ast.Raise):
+            exc = s.exc.func if isinstance(s.exc, ast.Call) else s.exc
+            if not isinstance(exc, ast.Name) or s.cause is not None or self.shadowed(exc.id):
+                raise Untranslatable("raise %s" % (ast.unparse(s.exc) if s.exc else ""))
+            if isinstance(s.exc, ast.Call):
+                if s.exc.keywords:
+                    raise Untranslatable("raise with keyword arguments")
+                for a in s.exc.args:
+                    self.check_message(a)
+            return "throw (.other %s)" % lean_str(exc.id)  # what follows a raise is dead code
+        if isinstance(s, ast.Return):
+            if self.loop:
+                raise Untranslatable("return inside a loop")
+            if s.value is None or (isinstance(s.value, ast.Constant) and s.value.value is None):
+                return self.finish("none", "()")
+            t, v = self.e(s.value)
+            if t in ("table", "set"):
+                raise Untranslatable("returns a table")
+            return take() + self.finish(t, v)
+        if isinstance(s, ast.If):
+            c = self.truth(s.test)
+            pre = take()
+            inner = any(isinstance(x, (ast.Return, ast.Assign, ast.AnnAssign, ast.AugAssign, ast.NamedExpr))
+                        for b in s.body + s.orelse for x in ast.walk(b))
+            if inner and self.loop:
+                raise Untranslatable("assignment / return inside a loop")
+            if inner:
+                # the continuation moves into both branches (a branch that returns or raises drops it)
+                saved = dict(self.types)
+                a = self.seq(list(s.body) + stmts[i + 1:], 0, ind + "  ", tail)
+                self.types = dict(saved)
+                b = self.seq(list(s.orelse) + stmts[i + 1:], 0, ind + "  ", tail)
+                self.types = saved
+                return pre + "(if %s then\n%s  %s\n%selse\n%s  %s)" % (c, ind, a, ind, ind, b)
+            a = self.seq(s.body, 0, ind + "  ", False)
+            b = self.seq(s.orelse, 0, ind + "  ", False)
+            return pre + then("(if %s then\n%s  %s\n%selse\n%s  %s)" % (c, ind, a, ind, ind, b))
+        if isinstance(s, ast.For) and isinstance(s.target, ast.Name) and not s.orelse:
+            t, it = self.e(s.iter)
+            if t not in ELEM:
+                raise Untranslatable("for loop over a %s" % t)
+            live = [x for x in s.body if not (isinstance(x, ast.Pass) or (isinstance(x, ast.Expr) and isinstance(x.value, ast.Constant)))]
+            if (len(live) == 1 and isinstance(live[0], ast.If) and not live[0].orelse and len(live[0].body) == 1
+                    and isinstance(live[0].body[0], ast.Return) and not self.loop):
+                # a search loop: `for x in l: if c(x): return a` is `if any(c(x) for x in l): return a` (the generator stops at the
+                # first hit like the loop does); `a` must not depend on the element found
                 v = s.target.id
-                if v in self.types:
-                    raise Untranslatable("loop variable %s shadows a local" % v)
-                self.types[v] = et
-                out.append("%sPy.forEach %s () (fun _ %s => do" % (ind, it, lname(v)))
-                self.loop += 1
-                self.stmts(s.body, ind + "    ", out, False)
+                ret = live[0].body[0]
+                if self.shadowed(v):
+                    raise Untranslatable("loop variable %s hides another name" % v)
+                if ret.value is not None and any(isinstance(x, ast.Name) and x.id == v for x in ast.walk(ret.value)):
+                    raise Untranslatable("search loop that returns the element found")
+                pre = take()
+                p, c = self.under(v, ELEM[t], lambda: self.truth(live[0].test))
+                if ret.value is None or (isinstance(ret.value, ast.Constant) and ret.value.value is None):
+                    a = self.finish("none", "()")
+                else:
+                    pa, (ta, va) = self.isolated(lambda: self.e(ret.value))
+                    if ta in ("table", "set"):
+                        raise Untranslatable("returns a table")
+                    a = self.mterm(pa, self.finish(ta, va))
+                hit = self.fresh()
+                b = rest() if (i + 1 < len(stmts) or tail) else "pure ()"
+                return pre + "Py.anyM %s (fun %s => %s) >>= fun %s =>\n%s(if %s then\n%s  %s\n%selse\n%s  %s)" % (
+                    it, self.local(v), self.mterm(p, "pure " + c), hit, ind, hit, ind, a, ind, ind, b)
+            if any(isinstance(x, (ast.Assign, ast.AugAssign, ast.AnnAssign, ast.Return, ast.Break, ast.Continue, ast.NamedExpr))
+                   for b in s.body for x in ast.walk(b)):
+                raise Untranslatable("assignment / return / break / continue inside a for loop")
+            v = s.target.id
+            if self.shadowed(v):
+                raise Untranslatable("loop variable %s hides another name" % v)
+            pre = take()
+            self.types[v] = ELEM[t]
+            self.loop += 1
+            try:
+                body = self.seq(s.body, 0, ind + "    ", False)
+            finally:
                 self.loop -= 1
-                out.append("%s    pure ())" % ind)
                 del self.types[v]
-            elif isinstance(s, ast.Assign) and len(s.targets) == 1 and isinstance(s.targets[0], ast.Name):
-                if not top:
-                    raise Untranslatable("assignment inside a branch")
-                t, v = self.e(s.value)
-                self.flush(out, ind)
-                if t not in ("str", "bool", "int", "char"):
-                    raise Untranslatable("assignment of a %s" % t)
-                name = s.targets[0].id
-                if name in self.types and self.types[name] != t:
-                    raise Untranslatable("local %s changes its type" % name)
-                self.types[name] = t
-                out.append("%slet %s := %s" % (ind, lname(name), v))
-            elif isinstance(s, ast.Assert):
-                c = self.truth(s.test)
-                self.flush(out, ind)
-                out.append("%sPy.assert %s" % (ind, c))
-            elif isinstance(s, ast.Return) and (s.value is None or (isinstance(s.value, ast.Constant) and s.value.value is None)):
-                if self.loop:
-                    raise Untranslatable("return inside a loop")
-                out.append("%sreturn ()" % ind)
-            else:
-                raise Untranslatable("statement %s" % type(s).__name__)
-        if not emitted:
-            out.append("%spure ()" % ind)
+            return pre + then("Py.forEach %s () (fun _ %s =>\n%s    %s)" % (it, self.local(v), ind, body))
+        if (isinstance(s, ast.Assign) and len(s.targets) == 1 and isinstance(s.targets[0], ast.Name)) or \
+                (isinstance(s, ast.AnnAssign) and isinstance(s.target, ast.Name) and s.value is not None):
+            if self.loop:
+                raise Untranslatable("assignment inside a loop")
+            name = s.targets[0].id if isinstance(s, ast.Assign) else s.target.id
+            t, v = self.e(s.value)
+            if t in ("none",):
+                raise Untranslatable("assignment of a %s" % t)
+            if name in self.mod.consts or name in self.mod.funcs:
+                raise Untranslatable("local %s hides a module-level name" % name)
+            if name in self.types and self.types[name] != t:
+                raise Untranslatable("local %s changes its type" % name)
+            self.types[name] = t
+            return take() + "let %s : %s := %s;\n%s%s" % (self.local(name), LEAN_TY[t], v, ind, rest())
+        if isinstance(s, ast.Assert):
+            c = self.truth(s.test)
+            self.check_message(s.msg)
+            return take() + then("Py.assert %s" % c)
+        if isinstance(s, ast.Expr) and isinstance(s.value, ast.Call) and isinstance(s.value.func, ast.Name) \
+                and s.value.func.id in self.mod.funcs and not self.shadowed_local(s.value.func.id):
+            t, v = self.e(s.value)
+            return take() + rest()  # the call is one of the binds; its result is dropped
+        raise Untranslatable("statement %s" % type(s).__name__)
+
+    def shadowed_local(self, name: str) -> bool:
+        return name in self.types
 
 
 def translate_names(repo: Path) -> typing.Tuple[str, typing.List[str]]:
@@ -550,44 +955,46 @@ def translate_names(repo: Path) -> typing.Tuple[str, typing.List[str]]:
     head = ["import PyRegex",
             "/-! GENERATED by tools/py2lean.py (names group: %s) -- do not edit. -/" % NAME_SOURCE,
             "set_option linter.unusedVariables false", ""]
-    sig = "def Gen.Names.check_name (name : Py.Str) : Py.M Unit"
-    src = ""
-    fn = None
+    sig = "def Gen.Names.check_name (v_name : Py.Str) : Py.M Unit"
     try:
         src = (repo / NAME_SOURCE).read_text()
         tree = ast.parse(src)
         mod = Module(tree)
-        fn = next((n for n in tree.body if isinstance(n, ast.FunctionDef) and n.name == FUNCTION), None)
+        fn = mod.funcs.get(FUNCTION)
         if fn is None:
             raise Untranslatable("function not found")
         a = fn.args
         if len(a.args) != 1 or a.vararg or a.kwarg or a.kwonlyargs or a.posonlyargs or a.defaults or fn.decorator_list:
             raise Untranslatable("signature of %s" % FUNCTION)
-        used: typing.Dict[str, typing.Tuple[str, str]] = {}
-        tr = FnTr(mod, used)
+        if any(isinstance(x, (ast.Yield, ast.YieldFrom, ast.Await, ast.Global, ast.Nonlocal, ast.FunctionDef, ast.Lambda))
+               for x in ast.walk(fn) if x is not fn):
+            raise Untranslatable("%s is not a plain function" % FUNCTION)
+        tr = FnTr(mod)
         tr.types[a.args[0].arg] = "str"
-        body: typing.List[str] = []
-        tr.stmts(fn.body, "  ", body, True)
-        body.append("  pure ()")
-        param = lname(a.args[0].arg)
+        tr.in_progress.append(FUNCTION)
+        body = tr.seq(list(fn.body), 0, "  ", True)
+        if tr.ret not in (None, "none"):
+            raise Untranslatable("%s returns a %s" % (FUNCTION, tr.ret))
         lines = src.splitlines()
         span = "\n".join(lines[fn.lineno - 1: fn.end_lineno])
         out = list(head)
-        for cname, (_, text) in used.items():
-            node = mod.consts[cname]
-            ctext = "\n".join(lines[node.lineno - 1: node.end_lineno])
-            out.append("/- %s  %s lines %d-%d sha256 %s -/" % (cname, NAME_SOURCE, node.lineno, node.end_lineno,
-                                                            hashlib.sha256(ctext.encode()).hexdigest()[:16]))
-            out += [text, ""]
         out.append("/- %s  %s lines %d-%d sha256 %s -/" % (FUNCTION, NAME_SOURCE, fn.lineno, fn.end_lineno,
                                                         hashlib.sha256(span.encode()).hexdigest()[:16]))
-        out.append("def Gen.Names.check_name (%s : Py.Str) : Py.M Unit := do" % param)
-        out += body
+        out.append("def Gen.Names.check_name (%s : Py.Str) : Py.M Unit :=" % FnTr.local(a.args[0].arg))
+        out += tr.helper_defs
+        out.append("  " + body)
+        out.append("")
+        out.append("/- every string and compiled pattern of the module-level tables %s consults (`in`, `for`, comprehensions), in the" % FUNCTION)
+        out.append("   order of first use -/")
+        out.append("def Gen.Names.reserved : List Py.Pat :=\n  %s" % Table(tr.tables_used, True).lean("  "))
         return "\n".join(out) + "\n", problems
     except (OSError, SyntaxError) as ex:
         why = "cannot read / parse: %s" % ex
     except Untranslatable as ex:
         why = str(ex)
+    except RecursionError:
+        why = "recursion limit"
     problems.append("%s %s: %s" % (NAME_SOURCE, FUNCTION, why))
-    out = head + [sig + " :=", "  throw (.other %s)" % lean_str("untranslatable: " + why)]
+    out = head + [sig + " :=", "  throw (.other %s)" % lean_str("untranslatable: " + why), "",
+                  "def Gen.Names.reserved : List Py.Pat := []"]
     return "\n".join(out) + "\n", problems
